@@ -22,6 +22,8 @@ result: {"results": [{"shape": [r, c], "cells": [[hex …] …]} | {"err": …} 
          "reference": [[hex …] …] | {"err": …} | None, "inputs_unmodified": bool}
 floats travel as `float.hex()` strings (exact, sign of zero and NaN preserved).
 """
+import contextlib
+import io
 from fractions import Fraction
 
 import numpy as np
@@ -123,15 +125,22 @@ class _Forwarder:
 
 
 def call(sem, act, allow_nan, cfg):
+    # X1: with cfg['verbose'] the public function runs its `if verbose:` blocks too (they define
+    # start_time and print two timings); the printed text is captured in memory
+    with contextlib.redirect_stdout(io.StringIO()):
+        return _call(sem, act, allow_nan, cfg, {'verbose': True} if cfg.get('verbose') else {})
+
+
+def _call(sem, act, allow_nan, cfg, vkw):
     via = cfg.get('via', 'public')
     if via == 'public':
-        return corr_py.correlation(sem, act, allow_nan=allow_nan)
+        return corr_py.correlation(sem, act, allow_nan=allow_nan, **vkw)
     kw = {'n_jobs': int(cfg['n_jobs']), 'chunksize': int(cfg['chunksize'])}
     fwd = _Forwarder(kw)
     real = corr_py.correlation_openmp
     corr_py.correlation_openmp = fwd
     try:
-        res = corr_py.correlation(sem, act, allow_nan=allow_nan)
+        res = corr_py.correlation(sem, act, allow_nan=allow_nan, **vkw)
     finally:
         corr_py.correlation_openmp = real
     if via == 'shim':
